@@ -23,6 +23,22 @@ def handle (args : List String) : Option String :=
     let s ← hexDecode src; let e ← parseBool eof
     let r := unescSpan e s
     pure s!"{r.1} {r.2.toString}"
+  -- round E: the observed call is judged against the contract (a relation), the model's own
+  -- step is not demanded
+  | ["estepok", cap, src, eof, nSrc, err, out] => do
+    let c ← cap.toNat?; let s ← hexDecode src; let e ← parseBool eof
+    let r : StepOut := ⟨← hexDecode out, ← nSrc.toNat?, ← Err.ofString err⟩
+    pure ((stepJudge escape 3 false c e s r).elim "ok" ("bad:" ++ ·))
+  | ["ustepok", cap, src, eof, nSrc, err, out] => do
+    let c ← cap.toNat?; let s ← hexDecode src; let e ← parseBool eof
+    let r : StepOut := ⟨← hexDecode out, ← nSrc.toNat?, ← Err.ofString err⟩
+    pure ((stepJudge unescape 1 true c e s r).elim "ok" ("bad:" ++ ·))
+  | ["espanok", src, eof, n, err] => do
+    let s ← hexDecode src; let e ← parseBool eof
+    pure ((spanJudge escape false e s (← n.toNat?) (← Err.ofString err)).elim "ok" ("bad:" ++ ·))
+  | ["uspanok", src, eof, n, err] => do
+    let s ← hexDecode src; let e ← parseBool eof
+    pure ((spanJudge unescape true e s (← n.toNat?) (← Err.ofString err)).elim "ok" ("bad:" ++ ·))
   | ["estr", src] => do
     let s ← hexDecode src
     pure (hexEncode (escape s))
